@@ -34,6 +34,9 @@ from . import sched
 from .common import drive, generic_shrinks, over, raised_in_harness, time_info, variant
 
 
+EPS = 2.3e-16
+
+
 def install_update_monitor():
     from resonaate.estimation.kalman.unscented_kalman_filter import UnscentedKalmanFilter
 
@@ -52,6 +55,8 @@ def install_update_monitor():
                    innovation=np.array(self.innovation, dtype=float).copy(), est_x=np.array(self.est_x, dtype=float).copy(),
                    est_p=np.array(self.est_p, dtype=float).copy(), dims=[int(o.dim) for o in observations],
                    pred_x=np.array(self.pred_x, dtype=float).copy(), pred_p=np.array(self.pred_p, dtype=float).copy(),
+                   sigma_y_res=np.array(self.sigma_y_res, dtype=float).copy(), sigma_x_res=np.array(self.sigma_x_res, dtype=float).copy(), cvr_weight=np.array(self.cvr_weight, dtype=float).copy(),
+                   innov_cvr=np.array(self.innov_cvr, dtype=float).copy(), cross_cvr=np.array(self.cross_cvr, dtype=float).copy(), r_matrix=np.array(self.r_matrix, dtype=float).copy(),
                    cond=float(np.linalg.cond(self.innov_cvr)), dx=np.abs(np.array(self.est_x, dtype=float) - np.array(self.pred_x, dtype=float)),
                    dp=float(np.max(np.abs(np.array(self.pred_p) - np.array(self.est_p)))))
 
@@ -84,6 +89,51 @@ def judge_updates(viol, cnt, res, cond=None):
                              "detail": f"step {r['step']} target {r['target']} component {i}: innovation {inn!r}, measured {float(r['true_y'][i])!r} - predicted {float(r['pred_y'][i])!r} wraps to {ref!r}"})
             if abs(abs(float(r["true_y"][i]) - float(r["pred_y"][i])) - 2 * math.pi) < 0.5 or abs(float(r["true_y"][i]) - float(r["pred_y"][i])) > math.pi:
                 cnt["innovations_across_a_seam"] = cnt.get("innovations_across_a_seam", 0) + 1
+    # the sigma-point residuals behind the innovation / cross covariances: wrapped differences to the predicted mean, whichever side of a seam they fall on
+    means = probes.of_kind("meas_mean")
+    max_res = max_cvr = 0.0
+    for r in probes.of_kind("ukf_update"):
+        prior = [m for m in means if m["seq"] < r["seq"] and m["sigma"].shape == r["sigma_y_res"].shape]
+        if not prior:
+            continue
+        sig = prior[-1]["sigma"]
+        ref = sig - r["pred_y"][:, None]
+        for i, ang in enumerate(r["angular"]):
+            if ang:
+                ref[i] = [geom.wrap_pi(float(v)) for v in ref[i]]
+        d = np.abs(r["sigma_y_res"] - ref)
+        for i, ang in enumerate(r["angular"]):
+            if ang:
+                d[i] = [abs(geom.wrap_pi(float(v))) for v in (r["sigma_y_res"][i] - ref[i])]
+                if not np.all((r["sigma_y_res"][i] > -math.pi - 1e-12) & (r["sigma_y_res"][i] <= math.pi + 1e-12)):
+                    viol.append({"clause": "sigma-residual-out-of-range", "key": "angular",
+                                 "detail": f"step {r['step']} target {r['target']} component {i}: sigma-point residuals {np.round(r['sigma_y_res'][i], 6).tolist()} outside (-pi, pi] (predicted mean {float(r['pred_y'][i])!r}, sigma measurements {np.round(sig[i], 6).tolist()})"})
+                    break
+        scale = 1e-11 * np.maximum(1.0, np.abs(sig).max(axis=1))[:, None]
+        max_res = max(max_res, float(np.max(d / scale)))
+        if over(float(np.max(d / scale)), 1.0):
+            i = int(np.argmax(np.max(d / scale, axis=1)))
+            viol.append({"clause": "sigma-residual-not-wrapped-difference", "key": "angular" if r["angular"][i] else "linear",
+                         "detail": f"step {r['step']} target {r['target']} component {i}: sigma-point residuals {r['sigma_y_res'][i].tolist()} differ from the wrapped differences {ref[i].tolist()}"})
+            continue
+        # covariances assembled from them (documented: sum of weighted outer products + R).  The residuals just confirmed are used as
+        # they are: with |centre weight| ~ 1e6 (alpha = 1e-3) the sum cancels by that factor and would amplify their last-bit differences
+        W = r["cvr_weight"] if r["cvr_weight"].ndim == 2 else np.diag(r["cvr_weight"])
+        own = r["sigma_y_res"]
+        S_ref = own @ W @ own.T + r["r_matrix"]
+        C_ref = r["sigma_x_res"] @ W @ own.T
+        wsum = float(np.abs(W).sum())
+        mres, mx = np.abs(own).max(axis=1), np.abs(r["sigma_x_res"]).max(axis=1)
+        lim_s = 1e-12 * np.sqrt(np.outer(np.abs(np.diag(S_ref)), np.abs(np.diag(S_ref)))) + 50 * EPS * wsum * np.outer(mres, mres) + 1e-300
+        lim_c = 1e-12 * np.abs(C_ref).max() + 50 * EPS * wsum * np.outer(mx, mres) + 1e-300
+        ds, dc = float(np.max(np.abs(r["innov_cvr"] - S_ref) / lim_s)), float(np.max(np.abs(r["cross_cvr"] - C_ref) / lim_c))
+        max_cvr = max(max_cvr, ds, dc)
+        cnt["innovation_covariances_recomputed"] = cnt.get("innovation_covariances_recomputed", 0) + 1
+        if over(ds, 1.0) or over(dc, 1.0):
+            viol.append({"clause": "covariance-not-from-wrapped-residuals", "key": "innovation" if over(ds, 1.0) else "cross",
+                         "detail": f"step {r['step']} target {r['target']}: innovation covariance differs from sum(w * res res^T) + R by {ds:.1f}x the allowance, cross covariance by {dc:.1f}x"})
+    res["tolerances"]["sigma_residual_vs_wrapped_difference(units of 1e-11)"] = [max(res["tolerances"].get("sigma_residual_vs_wrapped_difference(units of 1e-11)", [0, 0])[0], max_res), 1.0]
+    res["tolerances"]["innovation_and_cross_covariance_vs_reference(units of allowance)"] = [max(res["tolerances"].get("innovation_and_cross_covariance_vs_reference(units of allowance)", [0, 0])[0], max_cvr), 1.0]
     for r in probes.of_kind("meas_mean"):
         S, w = r["sigma"], r["weights"]
         for i, kind in enumerate(r["angular"]):
@@ -111,9 +161,6 @@ def judge_updates(viol, cnt, res, cond=None):
 
 def estimates_of(snaps_rec):
     return {k: s.get("estimates", {}) for k, s in snaps_rec["steps"].items() if s.get("complete")}
-
-
-EPS = 2.3e-16
 
 
 def estimates_of(upd):
